@@ -45,6 +45,7 @@ func init() {
 				autoIDFree(c)
 				addErrorPropagated(c)
 				requestBodiesUnbounded(c)
+				requestNumbersAreWhatConvertReads(c)
 				c14r3(c) // the ids a controller addresses characteristics by are assigned to everything the application added
 				characteristicsAddedOnce(c)
 			}},
